@@ -39,27 +39,37 @@ def harnesses(tier, seed):
             # fewer chunks than workers: one chunk of 2, held by the first or by the last worker
             for owners in ([0, 0], [1, 1]):
                 hs.append(collect_harness("c01", "collect_vec", ty, "slice", 2, 2, 2, owners, (1, 1) if ty != "FLF" else (2, 1)))
+        # iterator-backed sources (unknown and exact length) under the full schedule model
+        for ty in ("M", "MF"):
+            for src in ("sched", "schedx"):
+                for owners in owner_tables(2, 2, 1):
+                    hs.append(collect_harness("c01", "collect_vec", ty, src, 2, 2, 1, owners, (1, 1)))
+                hs.append(collect_harness("c01", "collect_vec", ty, src, 3, 2, 1, [0, 1, 0], (1, 1, 1)))
+        hs.append(collect_harness("c01", "collect_vec", "FMF", "sched", 3, 2, 2, [1, 1, 0], (1, 0, 1)))
+        hs.append(collect_harness("c01", "collect", "M", "sched", 2, 2, 1, [1, 0], (1, 1)))
     else:
+        light, heavy = [], []
         for ty in ("M", "MF", "FMF", "FLF"):
+            bucket = heavy if ty == "FLF" else light
             for (n, t, c) in ((3, 2, 1), (3, 2, 2), (4, 2, 2), (3, 3, 1), (2, 2, 2), (3, 3, 2)):
                 cvs = count_vectors(ty, n)
-                if ty == "FLF" and n >= 4:
-                    cvs = [k for k in cvs if 0 in k and 2 in k][:27]
                 for owners in owner_tables(n, t, c):
                     for k in cvs:
                         for obs in ((1, 2) if t >= 3 else (1,)):
-                            hs.append(collect_harness("c01", "collect_vec", ty, "slice", n, t, c, owners, k, obs=obs,
-                                                      tag="" if obs == 1 else "eagerobs"))
+                            bucket.append(collect_harness("c01", "collect_vec", ty, "slice", n, t, c, owners, k, obs=obs,
+                                                          tag="" if obs == 1 else "eagerobs"))
+            for src in ("sched", "schedx", "vec"):
+                for (n, t, c) in ((3, 2, 1), (3, 2, 2)):
+                    for owners in owner_tables(n, t, c):
+                        for k in (count_vectors(ty, n) if ty != "FLF" else [(1, 2, 1), (2, 0, 2), (4, 1, 0)]):
+                            bucket.append(collect_harness("c01", "collect_vec", ty, src, n, t, c, owners, k))
             for owners in owner_tables(3, 2, 1):
                 for k in (count_vectors(ty, 3) if ty != "FLF" else [(1, 2, 1), (2, 0, 2), (0, 1, 2)]):
-                    hs.append(collect_harness("c01", "collect", ty, "slice", 3, 2, 1, owners, k))
-            for src in ("vec", "range"):
-                for owners in owner_tables(2, 2, 1):
-                    for k in (count_vectors(ty, 2) if ty != "FLF" else FL_QUICK):
-                        hs.append(collect_harness("c01", "collect_vec", ty, src, 2, 2, 1, owners, k))
-        # other Par types reaching the same kernels
+                    bucket.append(collect_harness("c01", "collect", ty, "slice", 3, 2, 1, owners, k))
         for ty in ("F", "FM", "FL"):
-            for owners in owner_tables(2, 2, 1):
-                for k in (count_vectors(ty, 2) if ty != "FL" else FL_QUICK):
-                    hs.append(collect_harness("c01", "collect_vec", ty, "slice", 2, 2, 1, owners, k))
+            bucket = heavy if ty == "FL" else light
+            for owners in owner_tables(3, 2, 1):
+                for k in (count_vectors(ty, 3) if ty != "FL" else [(1, 2, 1), (2, 0, 2), (3, 1, 0)]):
+                    bucket.append(collect_harness("c01", "collect_vec", ty, "slice", 3, 2, 1, owners, k))
+        hs = cap(light, 700, seed) + cap(heavy, 60, seed)
     return hs
